@@ -83,7 +83,7 @@ fn data6(inp: &mut Inp) -> &'static [u8; 8] {
     leak(a)
 }
 
-//@ {"tier":"experimental","unwind":10,"stubs":["lossy","drop_even","drop_odd","bm","reserve"],"desc":"IppReader::read_value over [len=3][3 bytes][tail]: for EVERY fragmentation (each read 1..=max bytes) and up to 2 Interrupted results: returns exactly the 3 bytes, source position exactly 5","sym":"6 content bytes, 24 schedule bytes (chunk size and interrupt per call)"}
+//@ {"tier":"experimental","unwind":10,"stubs":["lossy","drop_even","drop_odd","bm","reserve","fmt"],"desc":"IppReader::read_value over [len=3][3 bytes][tail]: for EVERY fragmentation (each read 1..=max bytes) and up to 2 Interrupted results: returns exactly the 3 bytes, source position exactly 5","sym":"6 content bytes, 24 schedule bytes (chunk size and interrupt per call)"}
 pub fn c06_prim_read_value(inp: &mut Inp) {
     let d = data6(inp);
     let src = SymSrc::new(inp, &d[..], 2);
@@ -102,7 +102,7 @@ pub fn c06_prim_read_value(inp: &mut Inp) {
     reached();
 }
 
-//@ {"tier":"experimental","unwind":10,"stubs":["lossy","drop_even","drop_odd","bm","reserve"],"desc":"IppReader::read_tag + read_header + read_name (7-bit name of 3 bytes) under every fragmentation and up to 2 Interrupted: values and final position exact","sym":"12+ content bytes, 24 schedule bytes"}
+//@ {"tier":"experimental","unwind":10,"stubs":["lossy","drop_even","drop_odd","bm","reserve","fmt"],"desc":"IppReader::read_tag + read_header + read_name (7-bit name of 3 bytes) under every fragmentation and up to 2 Interrupted: values and final position exact","sym":"12+ content bytes, 24 schedule bytes"}
 pub fn c06_prim_header_name(inp: &mut Inp) {
     let mut a = [0u8; 16];
     let mut k = 0;
@@ -129,7 +129,7 @@ pub fn c06_prim_header_name(inp: &mut Inp) {
     reached();
 }
 
-//@ {"tier":"experimental","unwind":10,"stubs":["lossy","drop_even","drop_odd","bm","reserve"],"desc":"AsyncIppReader::read_value under every chunking and up to 2 not-ready results: exactly the declared bytes, position exactly 5","sym":"6 content bytes, 24 schedule bytes"}
+//@ {"tier":"experimental","unwind":10,"stubs":["lossy","drop_even","drop_odd","bm","reserve","fmt"],"desc":"AsyncIppReader::read_value under every chunking and up to 2 not-ready results: exactly the declared bytes, position exactly 5","sym":"6 content bytes, 24 schedule bytes"}
 pub fn c06_prim_async_read_value(inp: &mut Inp) {
     let d = data6(inp);
     let src = SymSrc::new(inp, &d[..], 2);
@@ -148,7 +148,7 @@ pub fn c06_prim_async_read_value(inp: &mut Inp) {
     reached();
 }
 
-//@ {"tier":"experimental","unwind":10,"stubs":["lossy","drop_even","drop_odd","bm","reserve"],"desc":"short source: declared length ANY 16-bit value against a 6-byte source, every fragmentation: Ok only with exactly the declared number of bytes, otherwise Err(UnexpectedEof); never a panic","sym":"16-bit length, 4 content bytes, 24 schedule bytes"}
+//@ {"tier":"experimental","unwind":10,"stubs":["lossy","drop_even","drop_odd","bm","reserve","fmt"],"desc":"short source: declared length ANY 16-bit value against a 6-byte source, every fragmentation: Ok only with exactly the declared number of bytes, otherwise Err(UnexpectedEof); never a panic","sym":"16-bit length, 4 content bytes, 24 schedule bytes"}
 pub fn c06_prim_short_source(inp: &mut Inp) {
     let mut a = [0u8; 6];
     let mut k = 0;
